@@ -13,11 +13,20 @@ package outbounds
 //   same walk   both calls end at the same sub-outbound with the same host/port (after hijack)
 //   stability   the verdict for addr is the same when asked again later, after more lookups than
 //               the engine's LRU (1024) holds, in either order of CheckUDP / UDP
+//   reference   the outbound chosen (or "reject"), and the host handed to it, equal a reference
+//               first-match evaluation of the rule list written from the documented ACL semantics:
+//               proto/port filter, exact / wildcard / suffix names compared case-insensitively,
+//               IP and CIDR rules applied to WHATEVER address the resolver stage delivered -- the
+//               ResolveInfo contract allows an error together with an address (one family failed,
+//               the other resolved), and the fake resolver produces such partial failures as well
+//               as complete ones -- hijack address replaces the host, no match = default outbound.
+//               Agreement alone would still hold if CheckUDP and UDP were wrong in the same way.
 
 import (
 	"fmt"
 	"math/rand"
 	"net"
+	"strconv"
 	"strings"
 	"testing"
 )
@@ -71,26 +80,37 @@ func (o *vfC08Ob) CheckUDP(a *AddrEx) error {
 	return nil
 }
 
-// vfC08Resolver is a resolver stage like systemResolver, with a fixed table instead of DNS.
+// vfC08Resolver is a resolver stage like the standard / DoH resolvers, with a fixed table instead
+// of DNS. Like them it may deliver an error TOGETHER with an address (one family failed).
 type vfC08Resolver struct {
 	next  PluggableOutbound
-	table map[string][2]net.IP
+	table map[string]vfC08Res
+}
+
+type vfC08Res struct {
+	ip4, ip6 net.IP
+	err      bool
+}
+
+func vfC08Lookup(table map[string]vfC08Res, host string) vfC08Res {
+	if ip := net.ParseIP(host); ip != nil {
+		if ip4 := ip.To4(); ip4 != nil {
+			return vfC08Res{ip4: ip4}
+		}
+		return vfC08Res{ip6: ip}
+	}
+	if e, ok := table[strings.ToLower(host)]; ok {
+		return e
+	}
+	return vfC08Res{err: true}
 }
 
 func (r *vfC08Resolver) resolve(a *AddrEx) {
-	if ip := net.ParseIP(a.Host); ip != nil {
-		if ip4 := ip.To4(); ip4 != nil {
-			a.ResolveInfo = &ResolveInfo{IPv4: ip4}
-		} else {
-			a.ResolveInfo = &ResolveInfo{IPv6: ip}
-		}
-		return
+	e := vfC08Lookup(r.table, a.Host)
+	a.ResolveInfo = &ResolveInfo{IPv4: e.ip4, IPv6: e.ip6}
+	if e.err {
+		a.ResolveInfo.Err = fmt.Errorf("vf: lookup of one or both families failed")
 	}
-	if e, ok := r.table[strings.ToLower(a.Host)]; ok {
-		a.ResolveInfo = &ResolveInfo{IPv4: e[0], IPv6: e[1]}
-		return
-	}
-	a.ResolveInfo = &ResolveInfo{Err: fmt.Errorf("vf: no such host")}
 }
 func (r *vfC08Resolver) TCP(a *AddrEx) (net.Conn, error) { r.resolve(a); return r.next.TCP(a) }
 func (r *vfC08Resolver) UDP(a *AddrEx) (UDPConn, error)  { r.resolve(a); return r.next.UDP(a) }
@@ -99,46 +119,143 @@ func (r *vfC08Resolver) CheckUDP(a *AddrEx) error        { r.resolve(a); return 
 var vfC08Hosts = []string{
 	"a.test", "b.test", "x.a.test", "y.x.a.test", "xa.test", "a.test.evil", "c.example", "deep.c.example", "EXAMPLE.org", "example.org",
 	"10.1.2.3", "10.1.3.4", "10.2.0.1", "192.168.0.1", "8.8.8.8", "fd00::1", "fd00::2:1", "2001:db8::5", "nodot", "xn--bcher-kva.test",
+	"p4.b.test", "p6.b.test", "p4.c.example", "p6.other", "pok.other", "fail.a.test",
 }
 
-var vfC08Table = map[string][2]net.IP{
-	"a.test":         {net.ParseIP("10.1.2.3").To4(), nil},
-	"b.test":         {net.ParseIP("10.2.0.1").To4(), net.ParseIP("fd00::1")},
-	"x.a.test":       {net.ParseIP("192.168.0.1").To4(), nil},
-	"y.x.a.test":     {nil, net.ParseIP("2001:db8::5")},
-	"c.example":      {net.ParseIP("8.8.8.8").To4(), net.ParseIP("fd00::2:1")},
-	"deep.c.example": {net.ParseIP("10.1.3.4").To4(), nil},
-	"example.org":    {net.ParseIP("10.1.2.3").To4(), nil},
+func vfC08IP(s string) net.IP {
+	ip := net.ParseIP(s)
+	if ip4 := ip.To4(); ip4 != nil {
+		return ip4
+	}
+	return ip
+}
+
+var vfC08Table = map[string]vfC08Res{
+	"a.test":         {ip4: vfC08IP("10.1.2.3")},
+	"b.test":         {ip4: vfC08IP("10.2.0.1"), ip6: vfC08IP("fd00::1")},
+	"x.a.test":       {ip4: vfC08IP("192.168.0.1")},
+	"y.x.a.test":     {ip6: vfC08IP("2001:db8::5")},
+	"c.example":      {ip4: vfC08IP("8.8.8.8"), ip6: vfC08IP("fd00::2:1")},
+	"deep.c.example": {ip4: vfC08IP("10.1.3.4")},
+	"example.org":    {ip4: vfC08IP("10.1.2.3")},
+	// partial failures: one family resolved, the lookup of the other one failed
+	"p4.b.test":    {ip4: vfC08IP("10.1.2.3"), err: true},
+	"p6.b.test":    {ip6: vfC08IP("fd00::1"), err: true},
+	"p4.c.example": {ip4: vfC08IP("192.168.0.1"), err: true},
+	"p6.other":     {ip6: vfC08IP("2001:db8::5"), err: true},
+	"pok.other":    {ip4: vfC08IP("8.8.8.8"), err: true},
+	// complete failure: "fail.a.test" and every name not listed
 }
 
 var vfC08Ports = []int{0, 1, 53, 80, 443, 999, 1000, 1500, 2000, 2001, 65535}
 
-func vfC08GenRules(r *rand.Rand) string {
+type vfC08Rule struct {
+	Ob     string // as written (any case)
+	Addr   string // as written
+	PP     string // proto/port as written
+	Hijack string
+}
+
+func vfC08GenRules(r *rand.Rand) (string, []vfC08Rule) {
 	obs := []string{"ob1", "ob2", "reject", "reject", "direct", "default", "REJECT", "Ob1"}
 	addrs := []string{"a.test", "*.a.test", "suffix:a.test", "*.test", "*", "all", "c.example", "suffix:c.example", "*a*", "example.org", "EXAMPLE.ORG",
-		"10.1.0.0/16", "10.1.2.3", "10.0.0.0/8", "192.168.0.0/24", "8.8.8.8", "fd00::/8", "fd00::1", "2001:db8::/32", "nodot", "b.test", "x.a.test", "*.example"}
+		"10.1.0.0/16", "10.1.2.3", "10.0.0.0/8", "192.168.0.0/24", "8.8.8.8", "fd00::/8", "fd00::1", "2001:db8::/32", "nodot", "b.test", "x.a.test", "*.example",
+		"10.1.0.0/16", "10.0.0.0/8", "192.168.0.0/24", "fd00::/8", "2001:db8::/32", "suffix:other"}
 	pps := []string{"", "", "*", "udp", "tcp", "udp/53", "tcp/53", "*/53", "udp/1000-2000", "*/1000-2000", "tcp/1000-2000", "*/*", "udp/*", "UDP/443", "udp/65535", "*/1"}
 	hij := []string{"", "", "", "1.2.3.4", "fd00::99", "10.1.2.3"}
 	n := 1 + r.Intn(14)
 	var b strings.Builder
+	var rules []vfC08Rule
 	for i := 0; i < n; i++ {
-		ob, ad, pp, hj := obs[r.Intn(len(obs))], addrs[r.Intn(len(addrs))], pps[r.Intn(len(pps))], hij[r.Intn(len(hij))]
+		ru := vfC08Rule{Ob: obs[r.Intn(len(obs))], Addr: addrs[r.Intn(len(addrs))], PP: pps[r.Intn(len(pps))], Hijack: hij[r.Intn(len(hij))]}
 		switch {
-		case hj != "":
-			if pp == "" {
-				pp = "*"
+		case ru.Hijack != "":
+			if ru.PP == "" {
+				ru.PP = "*"
 			}
-			fmt.Fprintf(&b, "%s(%s, %s, %s)\n", ob, ad, pp, hj)
-		case pp != "":
-			fmt.Fprintf(&b, "%s(%s,%s)\n", ob, ad, pp)
+			fmt.Fprintf(&b, "%s(%s, %s, %s)\n", ru.Ob, ru.Addr, ru.PP, ru.Hijack)
+		case ru.PP != "":
+			fmt.Fprintf(&b, "%s(%s,%s)\n", ru.Ob, ru.Addr, ru.PP)
 		default:
-			fmt.Fprintf(&b, "%s(%s)\n", ob, ad)
+			fmt.Fprintf(&b, "%s(%s)\n", ru.Ob, ru.Addr)
 		}
+		rules = append(rules, ru)
 		if r.Intn(8) == 0 {
 			b.WriteString("# comment line\n\n")
 		}
 	}
-	return b.String()
+	return b.String(), rules
+}
+
+// vfC08Glob: '*' stands for any (possibly empty) run of characters.
+func vfC08Glob(pat, s string) bool {
+	if pat == "" {
+		return s == ""
+	}
+	if pat[0] == '*' {
+		for i := 0; i <= len(s); i++ {
+			if vfC08Glob(pat[1:], s[i:]) {
+				return true
+			}
+		}
+		return false
+	}
+	return s != "" && s[0] == pat[0] && vfC08Glob(pat[1:], s[1:])
+}
+
+// vfC08Reference evaluates a UDP request against the rule list as the ACL documentation
+// describes it (first match wins). Returns the outbound name in lower case ("reject", "ob1",
+// "ob2", "direct", "default") and the hijack address of the matching rule ("" if none / no match).
+func vfC08Reference(rules []vfC08Rule, name string, res vfC08Res, port int) (string, string) {
+	name = strings.TrimRight(strings.ToLower(name), ".")
+	for _, ru := range rules {
+		// protocol / port
+		pp := strings.ToLower(ru.PP)
+		proto, ports := pp, ""
+		if i := strings.IndexByte(pp, '/'); i >= 0 {
+			proto, ports = pp[:i], pp[i+1:]
+		}
+		if proto == "tcp" {
+			continue
+		}
+		if ports != "" && ports != "*" {
+			lo, hi := 0, 0
+			if j := strings.IndexByte(ports, '-'); j >= 0 {
+				fmt.Sscan(ports[:j], &lo)
+				fmt.Sscan(ports[j+1:], &hi)
+			} else {
+				fmt.Sscan(ports, &lo)
+				hi = lo
+			}
+			if port < lo || port > hi {
+				continue
+			}
+		}
+		// host
+		pat := strings.ToLower(ru.Addr)
+		match := false
+		switch {
+		case pat == "*" || pat == "all":
+			match = true
+		case strings.HasPrefix(pat, "suffix:"):
+			sfx := pat[7:]
+			match = name == sfx || strings.HasSuffix(name, "."+sfx)
+		case strings.Contains(pat, "/"):
+			_, nw, err := net.ParseCIDR(pat)
+			match = err == nil && (res.ip4 != nil && nw.Contains(res.ip4) || res.ip6 != nil && nw.Contains(res.ip6))
+		case net.ParseIP(pat) != nil:
+			ip := net.ParseIP(pat)
+			match = res.ip4 != nil && ip.Equal(res.ip4) || res.ip6 != nil && ip.Equal(res.ip6)
+		case strings.Contains(pat, "*"):
+			match = vfC08Glob(pat, name)
+		default:
+			match = name == pat
+		}
+		if match {
+			return strings.ToLower(ru.Ob), ru.Hijack
+		}
+	}
+	return "default", ""
 }
 
 type vfC08Verdict struct {
@@ -168,7 +285,7 @@ func TestVerifC08ACLCheckUDP(t *testing.T) {
 			continue
 		}
 		r := k.Rand(caseID)
-		rules := vfC08GenRules(r)
+		rules, ruleList := vfC08GenRules(r)
 		rec := &vfC08Rec{}
 		picky := func(a *AddrEx) bool { return strings.Contains(a.Host, "x") || a.Port == 999 }
 		ob1 := &vfC08Ob{name: "ob1", rec: rec}
@@ -251,6 +368,44 @@ func TestVerifC08ACLCheckUDP(t *testing.T) {
 					k.Violation("acl:checkudp-udp-different-walk", rep(addr, map[string]any{"checkudp": fmt.Sprint(vc), "udp": fmt.Sprint(vu), "round": tag}),
 						"CheckUDP(%q) ended at outbound %q with %s:%d, UDP at %q with %s:%d", addr, vc.ob, vc.host, vc.port, vu.ob, vu.host, vu.port)
 					return false
+				}
+				// ---- reference verdict (only where the documentation is unambiguous: well-formed
+				// destination, no IDN host; without a resolver stage only for names, which then have
+				// no address at all)
+				if host, portStr, err := net.SplitHostPort(addr); err == nil && !strings.HasPrefix(host, "xn--") {
+					port, e2 := strconv.Atoi(portStr)
+					if e2 == nil && portStr[0] >= '0' && portStr[0] <= '9' && port <= 65535 && (withResolver || net.ParseIP(host) == nil) {
+						res := vfC08Res{}
+						if withResolver {
+							res = vfC08Lookup(vfC08Table, host)
+						}
+						ob, hijack := vfC08Reference(ruleList, host, res, port)
+						if ob == "default" {
+							ob = entries[0].Name
+						}
+						wantHost := host
+						if hijack != "" {
+							wantHost = net.ParseIP(hijack).String()
+						}
+						wantRej := ob == "reject" || ob == "ob2" && picky(&AddrEx{Host: wantHost, Port: uint16(port)})
+						wantOb := ob
+						if ob == "reject" {
+							wantOb, wantHost = "", ""
+						}
+						k.Count("ev_reference_checked", 1)
+						if res.err && (res.ip4 != nil || res.ip6 != nil) {
+							k.Count("ev_reference_partial_resolution", 1)
+						}
+						if vu.rejected != wantRej || vu.ob != wantOb || vu.ob != "" && vu.host != wantHost {
+							k.Violation("acl:verdict-differs-from-reference", rep(addr, map[string]any{"round": tag,
+								"resolved_ipv4": fmt.Sprint(res.ip4), "resolved_ipv6": fmt.Sprint(res.ip6), "resolver_error": res.err,
+								"want": fmt.Sprintf("outbound=%q host=%q rejected=%v", wantOb, wantHost, wantRej),
+								"got":  fmt.Sprintf("outbound=%q host=%q rejected=%v", vu.ob, vu.host, vu.rejected)}),
+								"UDP(%q) [resolved v4=%v v6=%v err=%v]: first matching rule gives outbound %q host %q rejected=%v, the engine chose outbound %q host %q rejected=%v",
+								addr, res.ip4, res.ip6, res.err, wantOb, wantHost, wantRej, vu.ob, vu.host, vu.rejected)
+							return false
+						}
+					}
 				}
 				if f, ok := first[addr]; ok {
 					if f != vc {
